@@ -1177,6 +1177,14 @@ def _():
     out += _fp("us_tail", " ; ".join(ast.unparse(s) for s in stmts_of(fn)[-6:]))
     ev = find_def(BC, "evaluate_upsampling")
     out += _fp("us_corr_center_expr", ast.unparse(find_assign(ev, "corr_center").value))
+    cc_ = find_assign(ev, "corr_center").value
+    if not (isinstance(cc_, ast.Call) and ast.unparse(cc_.func) == "np.ceil" and len(cc_.args) == 1):
+        raise Untranslatable(f"corr_center is not np.ceil(...): {ast.unparse(cc_)}")
+    v, t = tr(cc_.args[0], Env(subst={"np.asarray(corr_shape)": ("n", INT)}))
+    if t != RAT:
+        raise Untranslatable("corr_center argument is not a quotient")
+    out += ("/-- centre of the correlation map used by the upsampling, along an axis of length `n` -/\n"
+            f"def us_corr_center (n : Int) : Int := (({v}).ceil)\n")
     out += _fp("us_corr_shape", ast.unparse(find_assign(ev, "corr_shape").value))
     out += _fp("us_frequencies", ast.unparse(find_assign(ev, "frequencies").value))
     lp = [s for s in stmts_of(ev) if isinstance(s, ast.For)][0]
